@@ -333,7 +333,10 @@ def validPilLtoValidityWindow (cfg : Cfg) (L : Libc) (w : World) (pil : Nat) (st
   | .invalidPil => (some (TIME_MIN, TIME_MAX), w)
   | .fail => (none, w)
   | .ok t =>
-    if t > TIME_MAX - 28 * 60 * 60 then (none, w)
+    -- `(time_t) -1 == t` is read as failure even when -1 is the converted value (sentinel of the
+    -- documented interface; errno is not VBI_ERR_INVALID_PIL then): return FALSE
+    if t = -1 then (none, w)
+    else if t > TIME_MAX - 28 * 60 * 60 then (none, w)
     else if pilHour pil < 4 then
       if guardWin cfg t then (none, w)
       else (some (t - 4 * 60 * 60, t + 28 * 60 * 60), w)
